@@ -207,7 +207,25 @@ func catalogue() []entry {
 				d.T = nil
 			}
 			u := float64(g.Range(0, 2*n1*(tot-n1))) / 2
+			if g.Chance(1, 8) {
+				// a lopsided no-ties distribution with a sample size around or beyond 256
+				d = stats.UDist{N1: g.Range(1, 3), N2: []int{44, 255, 256, 257, 300, 556}[g.Intn(6)]}
+				u = float64(g.Range(0, 40))
+			}
+			shift := []int{256, 512, 65536}[g.Intn(3)]
 			return call{desc: fmt.Sprintf("UDist{N1:%d,N2:%d,T:%v} U=%v", d.N1, d.N2, d.T, u), run: func(r *R) {
+				if d.T == nil && d.N2 <= 300 && shift <= 512 {
+					// the same question asked again after a sibling whose sizes differ by a
+					// multiple of 256 (a table keyed on truncated sizes would be served
+					// the sibling's entry) must get the same answer
+					w1, w2 := d.CDF(u), d.PMF(u)
+					sib := stats.UDist{N1: d.N1, N2: d.N2 + shift}
+					sib.CDF(u + 7)
+					sib.PMF(u + 7)
+					if g1, g2 := d.CDF(u), d.PMF(u); math.Float64bits(g1) != math.Float64bits(w1) || math.Float64bits(g2) != math.Float64bits(w2) {
+						r.Fail("UDist{N1:%d,N2:%d}.CDF/PMF(%v) answered %v/%v, and %v/%v after the same questions were put to UDist{N1:%d,N2:%d}", d.N1, d.N2, u, w1, w2, g1, g2, sib.N1, sib.N2)
+					}
+				}
 				r.F(d.PMF(u)).F(d.CDF(u))
 				lo, hi := d.Bounds()
 				r.F(lo).F(hi).F(d.Step())
@@ -339,10 +357,24 @@ func catalogue() []entry {
 			// value-type distributions and special functions take no aggregate, but a
 			// package-level table or memo behind them is shared by every caller
 			n := g.Range(21, 250)
+			if g.Chance(1, 6) {
+				n = []int{255, 256, 257, 1000, 4095, 4096, 4097, 10000}[g.Intn(8)]
+			}
 			k := g.Range(0, n)
 			pr := 0.05 + 0.9*g.Unit()
 			x := 6*g.Unit() - 3
+			sh := []int{256, 65536, 1 << 20}[g.Intn(3)]
 			return call{desc: fmt.Sprintf("n=%d k=%d p=%v x=%v", n, k, pr, x), run: func(r *R) {
+				// asked again after the same functions were evaluated at arguments that
+				// differ by a power of two (keys truncated to 8/16/20 bits collide)
+				w1, w2 := mathx.Choose(n, k), stats.BinomialDist{N: n, P: pr}.PMF(float64(k))
+				mathx.Choose(n+sh, k)
+				mathx.Lchoose(n+sh, k+sh)
+				stats.BinomialDist{N: n + sh, P: pr}.PMF(float64(k))
+				stats.QuantileCI(n+sh, 0.5, 0.9)
+				if g1, g2 := mathx.Choose(n, k), (stats.BinomialDist{N: n, P: pr}).PMF(float64(k)); math.Float64bits(g1) != math.Float64bits(w1) || math.Float64bits(g2) != math.Float64bits(w2) {
+					r.Fail("Choose(%d,%d)/Binomial PMF answered %v/%v, and %v/%v after the same functions were evaluated at n+%d", n, k, w1, w2, g1, g2, sh)
+				}
 				r.F(mathx.Choose(n, k)).F(mathx.Lchoose(n, k)).F(mathx.Choose(n%21, k%5))
 				b := stats.BinomialDist{N: n, P: pr}
 				r.F(b.PMF(float64(k))).F(b.CDF(float64(k)))
@@ -355,6 +387,38 @@ func catalogue() []entry {
 				td := stats.TDist{V: float64(n % 30)}
 				r.F(td.PDF(x)).F(td.CDF(x))
 				r.F(mathx.Beta(pr*3, 2)).F(mathx.BetaInc(pr, 2, 3)).F(mathx.GammaInc(2.5, pr*4)).F(mathx.GammaIncComp(2.5, pr*4))
+			}}
+		}),
+		E("constructors", []string{}, func(g simkit.G, p *pool) call {
+			// constructors and the first operations on a task-private object: nothing
+			// is shared here except whatever the library keeps at package level
+			b := g.Range(2, 10)
+			m := float64(g.Range(1, 4))
+			mx := float64(g.Range(5, 5000))
+			nb := g.Range(1, 30)
+			lo := float64(g.Range(-50, 50))
+			x := 40*g.Unit() + 0.01
+			return call{desc: fmt.Sprintf("NewLogHist(%d,%v,%v) NewLinearHist(%v,%v,%d) NewLog x=%v", b, m, mx, lo, lo+7, nb, x), run: func(r *R) {
+				lh := stats.NewLogHist(b, m, mx)
+				lh.Add(x)
+				lh.Add(x * 3)
+				u, cs, o := lh.Counts()
+				r.I(int(u)).Us(cs).I(int(o)).F(lh.BinToValue(1)).F(lh.BinToValue(float64(len(cs))))
+				h := stats.NewLinearHist(lo, lo+7, nb)
+				h.Add(lo + x/8)
+				u, cs, o = h.Counts()
+				r.I(int(u)).Us(cs).I(int(o)).F(h.BinToValue(0.5))
+				sl, err := scale.NewLog(x, x*float64(b)*10, b)
+				r.Err(err).F(sl.Map(x * 2))
+				var st stats.StreamStats
+				st.Add(x)
+				st.Add(lo)
+				r.F(st.Mean()).F(st.StdDev())
+				var nm graphalg.NodeMarks
+				nm.Mark(nb * 40)
+				r.I(nm.Next(-1))
+				k := &stats.KDE{Sample: stats.Sample{Xs: []float64{lo, lo + 1, x, x + 2}}}
+				r.F(k.PDF(x)).F(k.Bandwidth)
 			}}
 		}),
 		E("equal-state", []string{}, func(g simkit.G, p *pool) call {
